@@ -48,7 +48,10 @@ def histories(rng, tier):
             if overlap and i == 1:
                 mine = mine + [p for p in pool if owner[p] == 0][:2]
             rng.shuffle(mine)
-            for ch in (mine[0::2], mine[1::2]):
+            # several separate calls: coverage blocks are appended per call (sorted within a call), so the
+            # file's block order is a merge of 1-4 sorted runs, not the pixel order
+            k = rng.choice([1, 2, 2, 3, 4])
+            for ch in [mine[j::k] for j in range(k)]:
                 if ch:
                     vals = []
                     for _ in ch:
